@@ -2,7 +2,10 @@ package checks
 
 import (
 	"fmt"
+	"go/parser"
+	"go/token"
 	"os"
+	"path/filepath"
 	"strings"
 
 	"verifharness/internal/core"
@@ -338,6 +341,7 @@ func init() {
 		if bin := buildCLI(c); bin != "" {
 			tmpx, _ := os.MkdirTemp("", "gjsc01x")
 			externalPackages(c, bin, tmpx, &fails)
+			rerunIntoExistingFile(c, bin, tmpx, &fails)
 			_ = os.RemoveAll(tmpx)
 		}
 		breaks(c, res, map[string]bool{"gen": true, "summary": true, "imports": true, "compile": true}, fails > 0)
@@ -345,4 +349,44 @@ func init() {
 		knownMultiFileFindings(c)
 		knownProgramFindings(c)
 	})
+}
+
+// rerunIntoExistingFile: the tool is run a second time with the same -o / --schema-output path after the schema changed
+// (grew, shrank, stayed the same, changed without changing size): what is on disk afterwards is exactly what a run into
+// an empty directory writes — a valid Go file, nothing left over from the earlier run.
+func rerunIntoExistingFile(c *engine.Ctx, bin, tmp string, fails *int) {
+	big := M{"$id": "urn:s", "type": "object", "required": []any{"name", "items"}, "properties": M{"name": M{"type": "string", "minLength": 2}, "items": M{"type": "array", "items": M{"type": "object", "properties": M{"sku": M{"type": "string"}, "qty": M{"type": "integer", "minimum": 1}}, "required": []any{"sku"}}, "minItems": 1},
+		"status": M{"type": "string", "enum": []any{"new", "paid", "shipped"}}, "note": M{"type": "string", "default": "none"}}}
+	small := M{"$id": "urn:s", "type": "object", "properties": M{"name": M{"type": "string"}}}
+	same := M{"$id": "urn:s", "type": "object", "properties": M{"nama": M{"type": "string"}}}
+	for si, seq := range [][]M{{big, small}, {small, big}, {big, big}, {small, same}, {big, small, big}, {big, small, small}} {
+		for _, viaMapping := range []bool{false, true} {
+			wd := filepath.Join(tmp, fmt.Sprintf("rerun%d-%v", si, viaMapping))
+			args := []string{"-p", "model", "-o", "model/order.go", "s.json"}
+			if viaMapping {
+				args = []string{"-p", "model", "--schema-output", "urn:s=model/order.go", "--schema-package", "urn:s=example.com/m/model", "s.json"}
+			}
+			var last cliResult
+			for _, sch := range seq {
+				_ = os.MkdirAll(wd, 0o755)
+				_ = os.WriteFile(filepath.Join(wd, "s.json"), core.MustJSON(sch), 0o644)
+				last = runCLI(bin, wd, "", args...)
+			}
+			fresh := filepath.Join(tmp, fmt.Sprintf("rerun%d-%v-fresh", si, viaMapping))
+			_ = os.MkdirAll(fresh, 0o755)
+			_ = os.WriteFile(filepath.Join(fresh, "s.json"), core.MustJSON(seq[len(seq)-1]), 0o644)
+			want := runCLI(bin, fresh, "", args...)
+			c.Programs++
+			ok := last.Exit == 0 && want.Exit == 0 && last.Files["model/order.go"] == want.Files["model/order.go"] && want.Files["model/order.go"] != ""
+			c.Eval(fmt.Sprintf("rerun-into-existing-file|%d|%v|ok=%v", si, viaMapping, ok))
+			if !ok {
+				*fails++
+				if *fails <= 3 {
+					_, perr := parser.ParseFile(token.NewFileSet(), "order.go", last.Files["model/order.go"], 0)
+					c.Fail("oracle", fmt.Sprintf("after %d runs into the same output file its content (%d bytes, parse error: %v) is not what a run into an empty directory writes (%d bytes)", len(seq), len(last.Files["model/order.go"]), perr, len(want.Files["model/order.go"])),
+						M{"kind": "cli-multi", "flags": args, "schemas": seq, "on_disk": clip(last.Files["model/order.go"], 3000), "fresh": clip(want.Files["model/order.go"], 3000)}, false)
+				}
+			}
+		}
+	}
 }
